@@ -677,13 +677,15 @@ def variants(tier):
         add("Add", k=k, rank=1)
     for cls in ("Hstack", "Vstack", "Diag"):
         for k in (1, 2, 3):
+            if cls == "Diag" and k == 3 and not T:
+                continue        # 2^6 unit-extent case splits: thorough tier only
             add(cls, k=k, axis=None, rank=1)
             add(cls, k=k, axis=0, rank=1)
             add(cls, k=k, axis=-1, rank=1)
         add(cls, k=2, axis=1, rank=2)
         add(cls, k=2, axis=-2, rank=2)
-        if cls != "Diag":        # Diag on flattened rank-2 operands: summation matcher too weak (engine limit) -> bounded probe only
-            add(cls, k=2, axis=None, rank=2)
+        # axis=None on rank-2 operands (flattened stacking): the summation matcher cannot relate the flattened index to the
+        # operands' multi-indices (engine limit) -> bounded native probe only, see NOT_DECIDED of C01/C03/C04
     for kind in ("A*B", "a*A", "A*a", "A+B", "A-B", "-A", "(A*B).H*(a*A)"):
         add("overload", kind=kind)
     add("FiniteDifference", rank=1)
